@@ -485,6 +485,116 @@ func extractCloseProto(repo, root string) error {
 		before(firstIdx(rn, func(a atom) bool { d, ok := a.node.(*ast.DeferStmt); return ok && strings.Contains(p.src(d), "done") }),
 			firstIdx(rn, func(a atom) bool { d, ok := a.node.(*ast.DeferStmt); return ok && endsWith(d.Call.Fun, "Close") })))
 
+	// fetchers: (*Reader).start accounts them in r.join; (*reader).run leaves at every cancelled sleep, closes its
+	// connection before every return taken while it owns one, and its hand-over to the application selects on ctx
+	st := p.flatten(p.fns[fnKey{"Reader", "start"}], 0)
+	iJoinAdd := firstIdx(st, callAtom(false, "join", "Add"))
+	iGoFetch := firstIdx(st, func(a atom) bool {
+		g, ok := a.node.(*ast.GoStmt)
+		if !ok {
+			return false
+		}
+		lit, ok := g.Call.Fun.(*ast.FuncLit)
+		if !ok {
+			return false
+		}
+		hasDone, hasRun := false, false
+		ast.Inspect(lit.Body, func(m ast.Node) bool {
+			if d, ok := m.(*ast.DeferStmt); ok && endsWith(d.Call.Fun, "Done") {
+				hasDone = true
+			}
+			if c, ok := m.(*ast.CallExpr); ok && endsWith(c.Fun, "run") {
+				hasRun = true
+			}
+			return true
+		})
+		return hasDone && hasRun
+	})
+	iStartChk := p.ifFieldReturns(st, "closed", func(string) bool { return true })
+	add("startAccountsFetchersAndRefusesWhenClosed", "(*Reader).start: returns at once when r.closed; r.join.Add(n) before `go func() { defer join.Done(); (&reader{…}).run(ctx, offset) }()`",
+		before(iStartChk, iJoinAdd) && before(iJoinAdd, iGoFetch))
+	frun := p.fns[fnKey{"reader", "run"}]
+	okSleep, nSleep := true, 0
+	okConnClose, nRetInLoop := true, 0
+	if frun != nil && frun.Body != nil {
+		// every `if !sleep(ctx, …) { … return }`
+		ast.Inspect(frun.Body, func(m ast.Node) bool {
+			if ifs, ok := m.(*ast.IfStmt); ok && hasCall(ifs.Cond, false, "sleep") {
+				nSleep++
+				if _, neg := ifs.Cond.(*ast.UnaryExpr); !neg || !strings.Contains(p.src(ifs.Body), "return") {
+					okSleep = false
+				}
+			}
+			return true
+		})
+		// inside the labelled read loop (the fetcher owns a connection there) every return and every `break <label>`
+		// — other than the codec error, whose Batch already closed the connection — is preceded by conn.Close()
+		ast.Inspect(frun.Body, func(m ast.Node) bool {
+			lbl, ok := m.(*ast.LabeledStmt)
+			if !ok {
+				return true
+			}
+			var visit func(list []ast.Stmt)
+			visit = func(list []ast.Stmt) {
+				for i, st := range list {
+					switch x := st.(type) {
+					case *ast.ReturnStmt:
+						nRetInLoop++
+						closed := false
+						for j := i - 1; j >= 0; j-- {
+							if hasCall(list[j], false, "Close") {
+								closed = true
+							}
+						}
+						if !closed {
+							okConnClose = false
+						}
+					case *ast.IfStmt:
+						visit(x.Body.List)
+						if b, ok := x.Else.(*ast.BlockStmt); ok {
+							visit(b.List)
+						}
+					case *ast.BlockStmt:
+						visit(x.List)
+					case *ast.ForStmt:
+						visit(x.Body.List)
+					case *ast.SwitchStmt:
+						for _, cc := range x.Body.List {
+							visit(cc.(*ast.CaseClause).Body)
+						}
+					}
+				}
+			}
+			visit([]ast.Stmt{lbl.Stmt})
+			return false
+		})
+	}
+	add("fetcherLeavesAtCancelledSleep", "(*reader).run: both back-off waits are `if !sleep(ctx, …) { … return }`", okSleep && nSleep >= 2)
+	add("fetcherClosesConnBeforeReturnInReadLoop", "(*reader).run: every return inside the read loop (where the fetcher owns a connection) is preceded by conn.Close()", okConnClose && nRetInLoop >= 2)
+	for _, fnm := range []string{"sendMessage", "sendError"} {
+		sm := p.flatten(p.fns[fnKey{"reader", fnm}], 0)
+		add(fnm+"SelectsOnContext", "(*reader)."+fnm+": the hand-over on r.msgs selects on ctx.Done() and returns ctx.Err()",
+			firstIdx(sm, func(a atom) bool { return strings.HasPrefix(a.text, "case ") && strings.Contains(a.text, "Done()") }) >= 0 &&
+				firstIdx(sm, func(a atom) bool {
+					r, ok := a.node.(*ast.ReturnStmt)
+					return ok && strings.Contains(p.src(r), ".Err()")
+				}) >= 0)
+	}
+	// the batch queue of a partition writer: a condition variable; Put and Close wake the sender, Get waits for either
+	qp := p.flatten(p.fns[fnKey{"batchQueue", "Put"}], 0)
+	qc := p.flatten(p.fns[fnKey{"batchQueue", "Close"}], 0)
+	qg := p.flatten(p.fns[fnKey{"batchQueue", "Get"}], 0)
+	bcast := func(as []atom) bool {
+		return firstIdx(as, func(a atom) bool { return hasCall(a.node, true, "cond", "Broadcast") }) >= 0
+	}
+	add("queuePutAndCloseWakeTheSender", "batchQueue.Put / Close: cond.Broadcast() (deferred) under the queue's lock; Put refuses when closed; Close sets closed",
+		bcast(qp) && bcast(qc) && p.ifFieldReturns(qp, "closed", contains("false")) >= 0 && firstIdx(qc, func(a atom) bool { return isAssignTrue(a, "closed") }) >= 0)
+	add("queueGetWaitsForPutOrClose", "batchQueue.Get: `for len(queue) == 0 && !closed { cond.Wait() }`, then nil when still empty",
+		firstIdx(qg, func(a atom) bool {
+			f, ok := a.node.(*ast.ForStmt)
+			return ok && f.Cond != nil && strings.Contains(p.src(f.Cond), "closed") && strings.Contains(p.src(f.Cond), "len(") && hasCall(f.Body, false, "cond", "Wait")
+		}) >= 0 && firstIdx(qg, func(a atom) bool { r, ok := a.node.(*ast.ReturnStmt); return ok && strings.Contains(p.src(r), "nil") }) >= 0)
+
 	// ---- ConsumerGroup
 	gc := get("ConsumerGroup", "Close")
 	add("groupCloseSignalsThenWaits", "(*ConsumerGroup).Close: close(cg.done) (once) before cg.wg.Wait()",
